@@ -195,7 +195,7 @@ pub fn header_palette() -> &'static Vec<MHeader> {
             }, // 21
             MHeader { alg: Some(MRegP::Private(-70000)), ..h() },             // 22
             MHeader { alg: Some(MRegP::Text("custom".into())), ..h() },       // 23
-            kid(&pat(300, 9)),                                                // 24
+            kid(&pat(300, 9)),                                                // 24 (protected bstr > 255 bytes)
             MHeader {
                 rest: vec![(MLabel::Int(0), MValue::Text(text_palette()[7].clone()))],
                 ..h()
@@ -210,6 +210,9 @@ pub fn header_palette() -> &'static Vec<MHeader> {
     // ... and an extra parameter whose value is a small bignum (tag 2), which the CBOR layer
     // folds into a plain integer when parsing
     v.push(MHeader { rest: vec![(MLabel::Int(1000), MValue::Tag(2, Box::new(MValue::Bytes(vec![1]))))], ..h() }); // 29
+    // protected bstr in the 24..=255 and 128..=255 length classes
+    v.push(kid(&pat(60, 13)));
+    v.push(kid(&pat(200, 14)));
     // a header nesting a counter signature whose own protected header holds a counter signature
         let inner = MHeader { counter_signatures: vec![sig(alg(-7), h(), b"deep")], ..h() };
         v.push(MHeader { counter_signatures: vec![sig(inner, h(), b"outer")], ..h() }); // 30
